@@ -1007,6 +1007,7 @@ var svCounter int
 
 // modeC16: event headers and control events, with and without a trailing CRC32.
 func modeC16(e *Env) {
+	histWriterCases(e)
 	n := e.N(400, 10000)
 	for i := 0; i < n; i++ {
 		for _, alg := range []int{0, 1, 255} {
@@ -1115,6 +1116,74 @@ func modeC16(e *Env) {
 			o = hdr(dev)
 			o["panic"], o["is"], o["s1"], o["s2"] = rec.panicked, dev.IsRand(), B(strconv.FormatUint(g1, 10)), B(strconv.FormatUint(g2, 10))
 			emitCase(e, M{"fn": "ev.rand", "cls": "rand", "alg": alg, "ts": u32s(ts), "np": u32s(np), "sid": u32s(sid), "flags": int(flags), "s1": B(strconv.FormatUint(s1, 10)), "s2": B(strconv.FormatUint(s2, 10)), "obs": o})
+		}
+	}
+}
+
+// histWriterCases: every event of generated stream-family histories as a case line with its abstract content and its
+// bytes, so that the replay can require bytes = EventFormat's encoding (HARNESS.writer): the writer behind the stream
+// family is cross-checked by the specification too. The real code only contributes IsValid / header accessors here.
+func histWriterCases(e *Env) {
+	cfgs := allCfgs()
+	for i := 0; i < e.N(24, 200); i++ {
+		cfg := cfgs[(i*5+int(e.Seed))%len(cfgs)]
+		l := GenLog(e.R, cfg, quickGP(), []uint32{0, 1<<31 - 500, 1<<32 - 300000}[0:1+i%3])
+		bs := l.Boundaries()
+		evs, _ := l.Served(bs[e.R.Intn(len(bs))])
+		for _, ev := range evs {
+			be := replication.NewMysql56BinlogEvent(ev.Bytes)
+			np := ev.End
+			flags := 0
+			if ev.Fake || ev.K == "heartbeat" {
+				np, flags = 0, 0x20
+				if ev.K == "heartbeat" {
+					np = ev.Start
+				}
+			}
+			m := M{"fn": "ev.hist", "cls": "hist-" + ev.K, "k": ev.K, "evbytes": B(ev.Bytes), "ts": u32s(ev.TS), "np": u32s(np), "sid": u32s(cfg.ServerID),
+				"flags": flags, "cksum": cfg.Checksum, "tidw": cfg.TidW, "v2": cfg.RowsV2,
+				"obs": M{"valid": be.IsValid(), "ts": u32s(be.Timestamp()), "np": strconv.FormatInt(be.NextPosition(), 10)}}
+			switch ev.K {
+			case "fde":
+				alg := 0
+				if cfg.Checksum {
+					alg = 1
+				}
+				m["srvver"], m["create4"], m["sizes"], m["alg"] = B(cfg.SrvVer), B(le32(ev.TS)), B(cfg.postHeaderLens()), alg
+			case "rotate":
+				m["pos"], m["file"] = B(strconv.FormatUint(ev.RotPos, 10)), B(ev.RotFile)
+			case "xid":
+				m["xid8"] = B(le64(uint64(ev.TS)*7 + 3))
+			case "query":
+				m["thread4"], m["exec4"], m["err2"], m["vars"], m["db"], m["sql"] = B(le32(11)), B(le32(0)), B(le16(0)), B(ev.SV), B(ev.DB), B(ev.SQL)
+			case "tablemap":
+				m["tidtext"], m["db"], m["name"], m["cols"], m["tail"] = B(strconv.FormatUint(ev.Tbl.ID, 10)), B(ev.Tbl.DB), B(ev.Tbl.Name), colsJ(ev.Tbl.Cols), B(ev.Tail)
+			case "write", "update", "delete":
+				rows := []M{}
+				for _, r := range ev.Rows {
+					rows = append(rows, M{"b": cellsJ(r.B, ev.Tbl), "a": cellsJ(r.A, ev.Tbl)})
+				}
+				m["tidtext"], m["cols"], m["rows"], m["extrab"] = B(strconv.FormatUint(ev.Tbl.ID, 10)), colsJ(ev.Tbl.Cols), rows, B(ev.Extra)
+				m["pb"], m["pa"] = boolBits(presentOf(ev.Rows[0].B)), boolBits(presentOf(ev.Rows[0].A))
+			case "gtid", "anongtid":
+				sid := ev.Sid
+				gno := ev.Gno
+				if ev.K == "anongtid" {
+					sid, gno = [16]byte{}, 0
+				}
+				tail := []byte{}
+				if cfg.NTypes >= 38 {
+					tail = append(append([]byte{2}, le64(1)...), le64(2)...)
+				}
+				m["sid16"], m["gno8"], m["gtail"] = B(append([]byte{}, sid[:]...)), B(le64(uint64(gno))), B(tail)
+			case "prevgtids":
+				m["rep"] = repJ([]sidEntry{{ev.Sid, []ivl{{1, ev.Gno}}}})
+			case "heartbeat":
+				m["file"] = B(ev.RotFile)
+			case "unknown":
+				m["code"], m["body"] = int(ev.Code), B([]byte{1, 2, 3, 4, 5, 6, 7, 8})
+			}
+			emitCase(e, m)
 		}
 	}
 }
